@@ -270,7 +270,9 @@ def decide(prop, tier, seed=0, use_cache=True, out=sys.stdout):
         "downgrades": downgrade,
         "undecided": ["%s: %s" % (u[0], u[1]) for u in undecided_units],
         "counting_rule": "obligations = AIR assert statements in the Verus queries of the units of this property (measured from --log air) + CBMC checks of the complete (loop-free, full-domain) Kani harnesses; bounded harnesses are listed separately and not counted",
-        "back_ends": "Verus 0.2026.09.13 / Z3 (bundled); Kani 0.68 / CBMC 6.11 / CaDiCaL",
+        "back_ends": "Verus 0.2026.09.13 / Z3 (bundled); Kani 0.68 / CBMC 6.11 / CaDiCaL, kissat for the int/float order harnesses",
+        "verifier_time_s": round(sum((e.get("time_ms") or 0) for e in ev_units) / 1000.0 + sum((e.get("time_s") or 0) for e in ev_kani), 1),
+        "verifier_time_note": "sum of the verifiers' own reported times for the units/harnesses of this property (taken from the result cache when the generated file / harness inputs are unchanged: see 'cached'); wall_s is the wall time of this invocation",
         "exit_code": rc,
     }
     evidence = {"property_id": prop, "tier": tier, "seed": seed, "level": level, "coverage": cov,
